@@ -159,7 +159,7 @@ impl C09 {
             let k = patches.get(idx).map(kind_of).unwrap_or("?");
             return Err(fail("patches_apply", &format!("patch-does-not-apply:{k}"), format!("{e}; patches were {kinds:?}")));
         }
-        let tree = observe(&w.reps[r].doc, None).map_err(|e| fail("reads", &format!("read-inconsistency:{}", sig_of_detail(&e.0)), e.0.clone()))?;
+        let tree = observe(&w.reps[r].doc, None).map_err(|e| fail("reads", &read_sig(&e.0), e.0.clone()))?;
         let want = view_of_tree(&tree, enc);
         w.stats.bump("probe.views_compared");
         if let Some(d) = view_diff(&want, self.views[r].as_ref().unwrap()) {
